@@ -121,6 +121,11 @@ func decode(kind string, data []byte) string {
 			return "openerr"
 		}
 		h := rd.Header()
+		if unboundedEmptyRows(&h) {
+			// rows of an element without properties occupy no bytes in a binary file: every Read returns at
+			// once, and only the declared count bounds a caller that loops to io.EOF (this loop is ours)
+			return "unbounded-empty-rows"
+		}
 		var rows []string
 		end := "eof"
 		for {
@@ -176,4 +181,17 @@ func decode(kind string, data []byte) string {
 		return sb.String()
 	}
 	return "unknown-kind"
+}
+
+// unboundedEmptyRows: a binary header declaring more than 4096 rows for an element without properties.
+func unboundedEmptyRows(h *ff.PLYHeader) bool {
+	if h.Format == ff.PLYFormatASCII {
+		return false
+	}
+	for _, e := range h.Elements {
+		if len(e.Properties) == 0 && e.Count > 4096 {
+			return true
+		}
+	}
+	return false
 }
